@@ -7,7 +7,10 @@
 class PolarR6_ZoniShifted_CzarnyGeometry : public SourceTerm
 {
 public:
-    PolarR6_ZoniShifted_CzarnyGeometry() = default;
+    PolarR6_ZoniShifted_CzarnyGeometry()
+    {
+        initializeGeometry();
+    }
     explicit PolarR6_ZoniShifted_CzarnyGeometry(const double& Rmax, const double& inverse_aspect_ratio_epsilon,
                                                 const double& ellipticity_e);
     virtual ~PolarR6_ZoniShifted_CzarnyGeometry() = default;
